@@ -195,9 +195,93 @@ Not decided: that every mentioned name is declared or imported (program dependen
     }
 
     shapes(m, ctx);
+    dispatch_agreement(m, ctx, "C18.dispatch", "Typescript", "generate", "t.ty");
     imports(m, ctx);
     values(m, ctx);
     categories(m, ctx, &ts);
+}
+
+/// C18.dispatch (also usable for the rasn backend): the dispatcher routes each kind of type assignment to a generator method,
+/// and each generator method begins by testing that it was given the kind it is written for (`if let ASN1Type::K(..) = tld.ty
+/// { .. } else { Err(mismatch) }`). Both tables are extracted and composed: for every ASN1Type variant the method the
+/// dispatcher chooses must accept that variant — otherwise a type assignment the backend means to support yields a warning
+/// and no declaration.
+pub fn dispatch_agreement(m: &Model, ctx: &mut Ctx, rule: &str, self_ty: &str, dispatcher: &str, scrutinee: &str) {
+    use crate::eval::{Env, Evaluator, Val, PatM};
+    let Some(d) = m.fns.iter().find(|f| f.name == dispatcher && f.self_ty.as_deref() == Some(self_ty)) else {
+        ctx.fail_closed(rule, &format!("anchor not found: {}::{}", self_ty, dispatcher));
+        return;
+    };
+    let Ok(types) = m.find_enum("ASN1Type") else {
+        ctx.fail_closed(rule, "enum ASN1Type not found");
+        return;
+    };
+    let Some(mt) = model::matches_in(&d.block).into_iter().find(|mt| tok(&mt.expr) == scrutinee) else {
+        ctx.fail_closed(rule, &format!("{}::{}: no match over `{}`", self_ty, dispatcher, scrutinee));
+        return;
+    };
+    let consts = const_resolver(m);
+    let ev = Evaluator { consts: &consts, call_hook: &crate::eval::no_hook, inline: None };
+    let value_of = |v: &str| -> Val {
+        let fields = types.variant_fields.get(v).cloned().unwrap_or_default();
+        Val::Ctor(v.to_string(), fields.iter().map(|_| Val::Opaque("payload".into())).collect(), Default::default())
+    };
+    let mut routed = 0;
+    for v in &types.variants {
+        let val = value_of(v);
+        let Ok((i, _)) = ev.select_arm(&mt, &val, &Env::new()) else { continue };
+        // the arm hands the definition to exactly one generator method
+        let calls: Vec<String> = model::method_calls_in(&syn::Block { brace_token: Default::default(), stmts: vec![syn::Stmt::Expr((*mt.arms[i].body).clone(), None)] }).into_iter().filter(|mc| tok(&mc.receiver) == "self" && mc.method.to_string().starts_with("generate_")).map(|mc| mc.method.to_string()).collect();
+        let [callee] = calls.as_slice() else { continue };
+        let Some(g) = m.fns.iter().find(|f| &f.name == callee && f.self_ty.as_deref() == Some(self_ty)) else { continue };
+        // its own test of the kind: the first `if let PAT = <x>.ty` of its body
+        // (an `if let` over the kind whose else branch is the mismatch error; other tests of the kind are decisions, not guards)
+        struct C { out: Option<syn::Pat> }
+        impl model::DeepCb for C {
+            fn expr(&mut self, e: &syn::Expr) {
+                if self.out.is_some() { return }
+                if let syn::Expr::If(i) = e {
+                    if let syn::Expr::Let(l) = &*i.cond {
+                        let t = tok(&l.expr);
+                        let rejects = i.else_branch.as_ref().map(|(_, b)| { let b = tok(b); b.contains("mismatch") || b.contains("Err(") }).unwrap_or(false);
+                        if (t.ends_with(".ty") || t.ends_with(".ty()")) && tok(&l.pat).contains("ASN1Type::") && rejects {
+                            self.out = Some((*l.pat).clone());
+                        }
+                    }
+                }
+            }
+        }
+        let mut c = C { out: None };
+        model::deep_walk_block(&g.block, &mut c);
+        let pat = match c.out {
+            Some(p) => p,
+            None => {
+                // or a `match` over the kind whose wildcard arm is the mismatch error
+                let guard = model::matches_in(&g.block).into_iter().find(|mt2| { let t = tok(&mt2.expr); (t.ends_with(".ty") || t.ends_with(".ty()")) && mt2.arms.iter().any(|a| tok(&a.pat) == "_" && { let b = tok(&a.body); b.contains("mismatch") || b.contains("Err(") }) });
+                let Some(g2) = guard else { continue };
+                routed += 1;
+                ctx.func(&g.key);
+                ctx.oblige(rule, &format!("{}->{}", v, callee), true);
+                match ev.select_arm(&g2, &val, &Env::new()) {
+                    Ok((j, _)) if tok(&g2.arms[j].pat) == "_" => ctx.violate(rule, &format!("generator-rejects:{}->{}", v, callee), &g.file, g.line,
+                        &format!("{}::{} hands a type assignment of kind {} to {}, whose own test of the kind sends it to the mismatch arm: the assignment yields a warning and no declaration", self_ty, dispatcher, v, callee)),
+                    Ok(_) => {}
+                    Err(e) => ctx.fail_closed(rule, &format!("[{} -> {}]: {}", v, callee, e)),
+                }
+                continue;
+            }
+        };
+        routed += 1;
+        ctx.func(&g.key);
+        ctx.oblige(rule, &format!("{}->{}", v, callee), true);
+        match ev.pat_match(&pat, &val, &mut Env::new()) {
+            PatM::Yes => {}
+            PatM::No => ctx.violate(rule, &format!("generator-rejects:{}->{}", v, callee), &g.file, g.line,
+                &format!("{}::{} hands a type assignment of kind {} to {}, which accepts only `{}` and answers anything else with a type-mismatch error: the assignment yields a warning and no declaration", self_ty, dispatcher, v, callee, tok(&pat))),
+            PatM::Unknown(e) => ctx.fail_closed(rule, &format!("[{} -> {}]: {}", v, callee, e)),
+        }
+    }
+    ctx.floor(&format!("{}/routed-kinds", rule), routed, 8);
 }
 
 /// C18.imports: "every type name it mentions is declared in the namespace or imported". The import loop of
